@@ -149,7 +149,7 @@ static void runExact(const LCase& lc, Ctx& ctx)
     {
       bool same = true;
       for (int d = 0; d < c.ndim; d++) same = same && c.data.at(i, d) == t.g.x0[(size_t)d];
-      if (same) hit = i;
+      if (same && c.fdef(i)) hit = i; // a datum without external drift value is not part of the system
     }
     if (hit < 0) continue;
     double ek = epsK(t.S.kappa, P.eta);
@@ -388,14 +388,15 @@ static void runShift(const LCase& lc, Ctx& ctx)
   // z' = z + sum_l c_{v,l} f_l / max|f_l| (coefficients normalised so that the added drift is of the order of the data)
   std::vector<LD> fmax((size_t)nbfl, 1e-300L);
   for (int l = 0; l < nbfl; l++)
-    for (int i = 0; i < n; i++) fmax[(size_t)l] = std::max(fmax[(size_t)l], fabsl(fData(*P.orc, i, l)));
+    for (int i = 0; i < n; i++)
+      if (c.fdef(i)) fmax[(size_t)l] = std::max(fmax[(size_t)l], fabsl(fData(*P.orc, i, l)));
   KCase c2 = c;
   bool any = false;
   std::vector<LD> addData((size_t)(n * nv), 0);
   for (int i = 0; i < n; i++)
     for (int v = 0; v < nv; v++)
     {
-      if (!c.zdef(i, v)) continue;
+      if (!c.zdef(i, v) || !c.fdef(i)) continue; // data outside the system keep their value
       LD s = 0;
       for (int l = 0; l < nbfl; l++) s += (LD)lc.coef[(size_t)(v * nbfl + l)] * fData(*P.orc, i, l) / fmax[(size_t)l];
       addData[(size_t)(i * nv + v)] = s;
